@@ -733,26 +733,30 @@ class LoadMixin(AbstractLoaderGenerator, BaseLoadHook):
         name = getattr(origin, '__name__', origin)
         args = None
 
-        if is_annotated(type_ann):
-            # Given `Annotated[T, ...]`, we only need `T`
-            type_ann, *field_extras = get_args(type_ann)
-            origin = get_origin_v2(type_ann)
-            name = getattr(origin, '__name__', origin)
-            # Check for Custom Patterns for date / time / datetime
-            for extra in field_extras:
-                if isinstance(extra, PatternBase):
-                    extras['pattern'] = extra
+        # Wrappers may be stacked in any order and to any depth, e.g.
+        # `NotRequired[Annotated[Alias, ...]]` or an alias of an alias:
+        # unwrap until a plain type remains.
+        while True:
+            if is_annotated(type_ann):
+                # Given `Annotated[T, ...]`, we only need `T`
+                type_ann, *field_extras = get_args(type_ann)
+                # Check for Custom Patterns for date / time / datetime
+                for extra in field_extras:
+                    if isinstance(extra, PatternBase):
+                        extras['pattern'] = extra
 
-        elif is_typed_dict_type_qualifier(origin):
-            # Given `Required[T]` or `NotRequired[T]`, we only need `T`
-            type_ann = get_args(type_ann)[0]
-            origin = get_origin_v2(type_ann)
-            name = getattr(origin, '__name__', origin)
+            elif is_typed_dict_type_qualifier(origin):
+                # Given `Required[T]` or `NotRequired[T]`, we only need `T`
+                type_ann = get_args(type_ann)[0]
 
-        # TypeAliasType: Type aliases are created through
-        # the `type` statement
-        if (value := getattr(origin, '__value__', None)) is not None:
-            type_ann = value
+            # TypeAliasType: Type aliases are created through
+            # the `type` statement
+            elif (value := getattr(origin, '__value__', None)) is not None:
+                type_ann = value
+
+            else:
+                break
+
             origin = get_origin_v2(type_ann)
             name = getattr(origin, '__name__', origin)
 
